@@ -168,7 +168,7 @@ async fn probe_tables(d: &risinglight::Database, tables: &[String]) -> Value {
     Value::Object(m)
 }
 
-async fn evaluate(snap_dir: &Path, case: &Case, rot: usize) -> Value {
+async fn evaluate(snap_dir: &Path, case: &Case, rot: usize, redo: Option<&str>) -> Value {
     let mut out = serde_json::Map::new();
     let d = match db::open_disk(snap_dir, &case.opts).await {
         Ok(d) => d,
@@ -181,6 +181,23 @@ async fn evaluate(snap_dir: &Path, case: &Case, rot: usize) -> Value {
     out.insert("boot_ok".into(), json!(true));
     out.insert("state".into(), probe_tables(&d, &case.tables).await);
     // the recovered store must accept new statements
+    // an interrupted DELETE is issued again: it must be accepted (it removes what is left to remove)
+    if let Some(sql) = redo {
+        // (a DELETE that overlaps a compaction of its table is refused with a conflict, NotFound("rowset"),
+        // and is to be retried by the client: the compactor runs right after boot)
+        let mut r = db::run_stmt(&d, sql).await;
+        for _ in 0..3 {
+            let conflict = r["ok"] != json!(true)
+                && r["err"].as_str().map(|e| e.contains("NotFound(\"rowset\"")).unwrap_or(false);
+            if !conflict {
+                break;
+            }
+            tokio::time::sleep(Duration::from_millis(1002)).await;
+            r = db::run_stmt(&d, sql).await;
+        }
+        out.insert("redo".into(), r);
+        out.insert("state_after_redo".into(), probe_tables(&d, &case.tables).await);
+    }
     // the probe comes in groups of statements separated by "--"; the order of the groups rotates from snapshot
     // to snapshot, so that the first statement that creates a row-set after recovery is not always the same
     let mut groups: Vec<Vec<&String>> = vec![vec![]];
@@ -315,13 +332,22 @@ async fn run_case(case: &Case, rec: &Rec) -> Value {
             rec.set_crash(None);
             let snaps2 = sh2.lock().unwrap().snaps.clone();
             for s2 in &snaps2 {
-                let mut v = evaluate(&s2.dir, case, second.len()).await;
+                let mut v = evaluate(&s2.dir, case, second.len(), None).await;
                 v["label"] = json!(s2.label);
                 v["variant"] = json!(s2.variant);
                 second.push(v);
             }
         }
-        let mut v = evaluate(&s.dir, case, outs.len()).await;
+        let redo = if s.step >= 1 {
+            case.steps
+                .get(s.step - 1)
+                .and_then(|st| st.get("sql"))
+                .and_then(|x| x.as_str())
+                .filter(|x| x.starts_with("delete"))
+        } else {
+            None
+        };
+        let mut v = evaluate(&s.dir, case, outs.len(), redo).await;
         v["label"] = json!(s.label);
         v["step"] = json!(s.step);
         v["path"] = json!(s.path);
